@@ -66,6 +66,17 @@ def special_family():
                                               ["assign", [["z", "and_a_b"]]]]), "syn"
 
 
+def joined_family():
+    """different sub-expressions whose operand names join to the same string (a,b_c vs a_b,c)"""
+    ins = ["a", "b", "c", "a_b", "b_c"]
+    for o in OPS2:
+        yield _mk(ins, ["y", "z"], [], [["assign", [["y", [o, "a", "b_c"]]]], ["assign", [["z", [o, "a_b", "c"]]]]])
+        yield _mk(ins, ["y", "z"], [], [["assign", [["y", ["or", [o, "a", "b_c"], "b"]], ["z", ["and", [o, "a_b", "c"], "a"]]]]])
+        yield _mk(ins, ["y", "z"], [], [["assign", [["y", [o, ["not", "a"], "b_c"]]]], ["assign", [["z", [o, "a_b", ["not", "c"]]]]]])
+    yield _mk(ins, ["y", "z"], [], [["assign", [["y", ["mux", "a", "b_c", "c"]]]], ["assign", [["z", ["mux", "a_b", "c", "c"]]]]])
+    yield _mk(ins, ["y", "z"], [], [["assign", [["y", ["not", "a_b"]]]], ["assign", [["z", ["and", ["not", "a_b"], "c"]]]]])
+
+
 def reject_family():
     ins = ["a", "b"]
     base = _mk(ins, ["y"], [], [["assign", [["y", ["and", "a", "b"]]]]])
@@ -73,6 +84,16 @@ def reject_family():
         d = copy.deepcopy(base)
         d["ports"] = ports
         yield d
+    # a port that is only declared as a wire (neither input nor output)
+    d = copy.deepcopy(base)
+    d["ports"] = ["a", "b", "y", "w"]
+    d["wires"] = ["w"]
+    d["items"].append(["assign", [["w", "a"]]])
+    yield d
+    d = copy.deepcopy(base)
+    d["ports"] = ["a", "b", "y", "w"]
+    d["wires"] = ["w"]
+    yield d
     d = copy.deepcopy(base)
     d["ports"] = ["a", "b", "y"]
     d["outputs"] = ["y", "q"]  # declared output not in the port list
@@ -85,6 +106,8 @@ def cases(tier, seed):
     for nl in precedence_family():
         for layout in ("plain", "fuzz", "tight"):
             yield {"nl": nl, "layout": layout, "order": None, "comments": layout == "fuzz", "salt": 1, "fam": "plain"}
+    for nl in joined_family():
+        yield {"nl": nl, "layout": "plain", "order": None, "comments": False, "salt": 4, "fam": "plain"}
     for nl, fam in special_family():
         yield {"nl": nl, "layout": "plain", "order": None, "comments": False, "salt": 2, "fam": fam}
     for nl in reject_family():
@@ -94,7 +117,8 @@ def cases(tier, seed):
         bb = rng.choice([0, 0, 1, 2])
         fam = "plain"
         unc = rng.choice([0.0, 0.0, 0.3])
-        nl = vlog.rand_netlist(rng, n_in=rng.randint(1, 4), n_items=rng.randint(1, 6), depth=rng.randint(1, 3), bb=bb,
+        pool = (["a", "b", "c", "a_b", "b_c", "c_a", "a_b_c", "b0", "b1"] + [f"n{k}" for k in range(12)]) if rng.random() < 0.3 else None
+        nl = vlog.rand_netlist(rng, n_in=rng.randint(1, 4), n_items=rng.randint(1, 6), depth=rng.randint(1, 3), bb=bb, names=pool,
                                exprs_in_gates=rng.random() < 0.4, unconnected=unc, omitted=rng.choice([0.0, 0.2]))
         if any(it[0] == "bb" and None in it[3].values() for it in nl["items"]):
             fam = "unc"
